@@ -71,6 +71,17 @@ class LogGaussianPrior(Prior):
             id_=id_,
         )
 
+    def with_limits(self, lower_limit: float, upper_limit: float) -> "LogGaussianPrior":
+        """
+        A new prior with the same mean and sigma whose limits are tightened to the passed limits.
+        """
+        return LogGaussianPrior(
+            mean=self.mean,
+            sigma=self.sigma,
+            lower_limit=max(lower_limit, self.lower_limit),
+            upper_limit=min(upper_limit, self.upper_limit),
+        )
+
     def _new_for_base_message(self, message):
         """
         Create a new instance of this wrapper but change the parameters used
